@@ -130,6 +130,7 @@ def generate(seed, index, tier):
         a = cmds[:k]
         b = gp.gen_cmds(ch, ch.int(1, 5), mag=mag, leading_move=True)
         case["pieces"] = [a, b]
+        case["coincide"] = ch.coin(0.3)
         case["styles"] = [ch.int(0, 63), ch.int(0, 63)]
         case["forms"] = [ch.choice(["add", "iadd"])]
         case["first"] = "path"
@@ -138,6 +139,8 @@ def generate(seed, index, tier):
         case["pieces"] = [cmds]
         case["styles"] = [ch.int(0, 63)]
         case["shape"] = _gen_shape(ch)
+        case["empty_left"] = ch.coin(0.2)
+        case["then"] = [_num(ch), _num(ch)] if ch.coin(0.5) else None
         case["forms"] = [ch.choice(["add", "iadd"])]
         case["first"] = "path"
         case["noise"] = [[]]
@@ -319,6 +322,14 @@ def _execute_once(case, se, out, trace, se_ref, label=""):
                     out.count("probe:length-after-append-compared")
         return
     if mode == "pathpath":
+        if case.get("coincide") and isinstance(p, se.Path) and p.current_point is not None and case["pieces"][1][0]["c"] in "Mm":
+            # the appended path's own move goes exactly to where the left path stands
+            cp = p.current_point
+            rest = gp.render(case["pieces"][1][1:], case["styles"][1]) if len(case["pieces"][1]) > 1 else ""
+            g0 = case["pieces"][1][0]["g"]
+            tail0 = " ".join("%s,%s" % (g[0], g[1]) for g in g0[1:])
+            pieces[1] = "M %r,%r %s %s" % (cp.x, cp.y, tail0, rest)
+            out.count("probe:appended-move-coincides")
         try:
             q = se.Path(pieces[1])
         except Exception:
@@ -358,6 +369,9 @@ def _execute_once(case, se, out, trace, se_ref, label=""):
         return
     # path + shape
     spec = case["shape"]
+    if case.get("empty_left"):
+        p = se.Path()
+        out.count("probe:empty-left-operand")
     shape = _build_shape(se, spec)
     form = case["forms"][0]
     out.count("op:pathshape-" + form)
@@ -411,6 +425,18 @@ def _execute_once(case, se, out, trace, se_ref, label=""):
         if not ob.close_val(got, pts, rel=0.0, absol=rel * scale):
             raise V("concat-geometry", ["pathshape", "points", spec["kind"]], "segment %d: %r vs %r" % (i, got, pts))
     out.count("probe:compared")
+    if case.get("then"):
+        # the sum is a path in the left operand's coordinate space: absolute data appended to it lands where it says
+        tx, ty = case["then"]
+        n_before = len(r)
+        try:
+            r += "L %r,%r" % (tx, ty)
+            last = abs(r)[len(r) - 1]
+        except Exception as e:
+            raise V("append-raises", [type(e).__name__, core.exc_sig(e)[1], "after-shape", spec["kind"]], "appending to Path + %s raised %r" % (spec["kind"], e))
+        if len(r) != n_before + 1 or type(last).__name__ != "Line" or not ob.close_val(ob.pt(last.end), (tx, ty), 1e-9, 1e-9):
+            raise V("concat-geometry", ["pathshape", "then", spec["kind"]], "after Path + %s, appending 'L %r,%r' draws to %r" % (spec["kind"], tx, ty, ob.pt(last.end) if hasattr(last, "end") else last))
+        out.count("probe:append-after-shape-compared")
 
 
 def shrink(case):
